@@ -111,4 +111,8 @@ def run(ctx):
 
 def replay(case):
     events = case if isinstance(case, list) else case["events"]
-    return check(events, "lower")[0]
+    for cs in ("lower", "upper", "mixed"):
+        m = check(events, cs)[0]
+        if m:
+            return m
+    return []
